@@ -4,7 +4,7 @@ import GdVerif.Spec.Eco
 namespace Gd.Run
 open Gd Gd.Eco
 
-instance : Inhabited Spec.Dyadic := ⟨⟨false, 0, 0⟩⟩
+instance : Inhabited Spec.Decimal := ⟨⟨false, 0, 0⟩⟩
 
 /-- any valid UTF-8 text, NUL and the other control characters included (they travel escaped) -/
 def gEcoStr : G Bytes := do
@@ -21,25 +21,34 @@ def gDict : G (List (Bytes × Bytes)) := do
   let kvs ← G.listOf n (do let k ← G.ident; let v ← gEcoStr; pure (utf8Encode k, v))
   pure (dedupKeys kvs)
 
-/-- doubles with a short exact decimal expansion (at most 15 significant digits in every notation used
-below): integers below 2^49, halves, quarters, … -/
-def gDyadic : G Spec.Dyadic := do
+/-- decimal literals: zeros, integers (also beyond 2^53 and 2^64), short decimals, 17-significant-digit decimals
+(what a server prints for a double), the extremes of the double range -/
+def gDecimal : G Spec.Decimal := do
   let neg ← G.chance 1 5
-  let c ← G.below 6
+  let c ← G.below 9
   match c with
   | 0 => pure ⟨neg, 0, 0⟩
-  | 1 => do let n ← G.nat 49; pure ⟨neg, n, 0⟩
+  | 1 => do let n ← G.nat 53; pure ⟨neg, n, 0⟩
   | 2 => do let n ← G.nat 20; pure ⟨neg, n, 0⟩
-  | _ => do
-    let k ← G.oneOf [1, 2, 3, 4, 6, 10]
+  | 3 => do
+    let k : Nat ← G.oneOf [1, 2, 3, 4, 6, 10]
     let n ← G.nat 24
-    pure ⟨neg, n, k⟩
+    pure ⟨neg, n * 5 ^ k, -(k : Int)⟩
+  | 4 => do let n ← G.nat 67; pure ⟨neg, n, 0⟩
+  | 5 => G.oneOf [⟨neg, 17976931348623157, 292⟩, ⟨neg, 5, -324⟩, ⟨neg, 22250738585072014, -324⟩, ⟨neg, 1, -400⟩,
+      ⟨neg, 9007199254740993, 0⟩, ⟨neg, 90071992547409910, -1⟩, ⟨neg, 1, 22⟩, ⟨neg, 1, 23⟩]
+  | _ => do
+    -- 17 significant digits, as printed for a double
+    let hi ← G.below 90000000
+    let lo ← G.below 1000000000
+    let e ← G.oneOf [-16, -12, -11, -8, -20, 0, 3]
+    pure ⟨neg, (hi + 10000000) * 1000000000 + lo, e⟩
 
 def gEcoState : G Spec.State := do
-  let d0 ← gDyadic
-  let d1 ← gDyadic
-  let d2 ← gDyadic
-  let d3 ← gDyadic
+  let d0 ← gDecimal
+  let d1 ← gDecimal
+  let d2 ← gDecimal
+  let d3 ← gDecimal
   let info : Info := {
       external := ← G.bool,
       gamePort := ← G.nat 32,
@@ -125,17 +134,26 @@ def vobj (kvs : List (Bytes × Bytes)) : G Bytes := do
   let ms ← kvs.mapM fun kv => do pure (kv.1 ++ (← gWs) ++ [58] ++ (← gWs) ++ kv.2)
   pure ([123] ++ (← vsep ms) ++ [125])
 
-/-- the same value in one of the number notations -/
-def vfloat (d : Spec.Dyadic) : G Bytes := do
+/-- the same value in one of the number notations: exponent form, positional form, trailing zeros -/
+def vfloat (d : Spec.Decimal) : G Bytes := do
   let c ← G.below 6
   let sign : Bytes := if d.neg then [45] else []
-  let s := d.n * 5 ^ d.k
-  match c with
-  | 0 => pure (sign ++ natDec s ++ asciiBytes "e-" ++ natDec d.k)
-  | 1 => pure (sign ++ natDec s ++ asciiBytes "E-0" ++ natDec d.k)
-  | 2 => pure (d.text ++ (if d.k == 0 then asciiBytes ".0" else asciiBytes "0") ++ asciiBytes "e+0")
-  | 3 => pure (sign ++ natDec s ++ asciiBytes ".0e-" ++ natDec d.k)
-  | _ => pure d.text
+  let ds := natDec d.m
+  let positional : Option Bytes :=
+    if d.e ≥ 0 then (if d.e ≤ 25 && d.m != 0 then some (ds ++ List.replicate d.e.toNat 48) else if d.m == 0 then some ds else none)
+    else
+      let k := (-d.e).toNat
+      if k > 40 then none
+      else
+        let padded := List.replicate (k + 1 - ds.length) 48 ++ ds
+        some (padded.take (padded.length - k) ++ [46] ++ padded.drop (padded.length - k))
+  match c, positional with
+  | 0, _ => pure (sign ++ ds ++ asciiBytes "E" ++ (if d.e ≥ 0 then asciiBytes "+" else []) ++ intDec d.e)
+  | 1, _ => pure (sign ++ ds ++ asciiBytes ".0e" ++ intDec d.e)
+  | 2, some p => pure (sign ++ p ++ (if d.e ≥ 0 then asciiBytes ".0" else asciiBytes "0"))
+  | 3, some p => pure (sign ++ p ++ asciiBytes "e0")
+  | _, some p => pure (sign ++ p)
+  | _, none => pure d.text
 
 /-- values of members the reader does not know: skipped, whatever they are -/
 def gJunk : G Bytes :=
